@@ -4,7 +4,7 @@
 From Coq Require Import NArith ZArith List String Bool Permutation.
 From V Require Import Base.UString Base.Json Model.SchemaTypes Model.PyBase Model.Schema Model.Serialize.
 From V Require Import Spec.JsonValue Proofs.C01Basics Proofs.C01Serialize.
-From V Require Import Proofs.C01Kinds Proofs.C01KindsAll Proofs.C01Object Proofs.C01Roundtrip Proofs.C01Parse Proofs.C01Bundle Proofs.C01Observed Proofs.C01Pretty Proofs.C01LibInstance Gen.Tables.
+From V Require Import Proofs.C01Kinds Proofs.C01KindsAll Proofs.C01Object Proofs.C01Roundtrip Proofs.C01Parse Proofs.C01Bundle Proofs.C01Observed Proofs.C01Pretty Proofs.C01LibInstance Proofs.C04Witness Proofs.C01Examples Gen.Tables.
 Import ListNotations.
 
 (* All serialization options denote the same JSON value: whatever the option set, the value written
@@ -124,7 +124,7 @@ Theorem pretty_toplevel_spec_order_partial :
     map fst ms = map fst (kept incl dfl inner) /\
     exists customs,
       map fst inner = filter (fun n => amem n inner) (PN c ++ customs) /\
-      NoDup (PN c ++ customs) /\ (forall x, In x customs -> mem_ustr x (PN c) = false).
+      NoDup (PN c ++ customs) /\ (forall x, In x customs -> mem_ustr x (PN c) = false) /\ usort customs = customs.
 Proof. exact C01Pretty.pretty_spec_order. Qed.
 Print Assumptions pretty_toplevel_spec_order_partial.
 
@@ -157,7 +157,7 @@ Print Assumptions roundtrip_equal_parse_partial.
    same object.  Members' round trip is roundtrip_equal_parse_partial, one fuel level down. *)
 Theorem roundtrip_equal_bundle_partial :
   forall vr ev w pattern_ok selectors_ok, vr_year_pad vr = true ->
-  forall ids, closed_ok vr w ids = true -> registry_ok w = true ->
+  forall ids, closed_okw vr w ids = true -> registry_ok w = true ->
   forall pids, forallb (fun k => mem_ustr k ids) pids = true ->
     forallb (fun k => match find_class (wclasses w) k with Some c => parse_class_ok w c | None => false end) pids = true ->
   forall fuel kid allow interop kw vrefs o c,
@@ -166,7 +166,7 @@ Theorem roundtrip_equal_bundle_partial :
     run vr ev w pattern_ok selectors_ok fuel (RConstruct kid allow interop kw vrefs) = Ok o ->
     bundle_members_ok w pids kw o = true ->
     run vr ev w pattern_ok selectors_ok fuel (RConstruct kid allow interop (omem o) vrefs) = Ok o.
-Proof. exact C01Bundle.bundle_roundtrip. Qed.
+Proof. exact C01Bundle.bundle_roundtripw. Qed.
 Print Assumptions roundtrip_equal_bundle_partial.
 
 (* roundtrip_equal for ObservedData in its STIX 2.1 form (object_refs; no `objects` member), constructor level,
@@ -217,7 +217,7 @@ Theorem lib_classes_covered :
   closed_okw variant_repaired lib lib_proved_idsw = true /\ closed_ok variant_repaired lib lib_proved_ids = true /\
   forallb (fun k => mem_ustr k lib_proved_idsw) lib_proved_ids = true /\
   forallb (fun k => match find_class (wclasses lib) k with
-                    | Some c => bundle_ok variant_repaired lib lib_proved_ids c
+                    | Some c => bundle_ok variant_repaired lib lib_proved_idsw c
                     | None => false
                     end) lib_bundle_ids = true /\
   forallb (fun k => match find_class (wclasses lib) k with
@@ -231,7 +231,7 @@ Theorem lib_classes_covered :
   lib_unproved_ids = [].
 Proof.
   exact (conj C01LibInstance.lib_proved_closedw (conj C01LibInstance.lib_proved_closed
-          (conj C01LibInstance.lib_proved_sub (conj C01LibInstance.lib_bundle_okb (conj C01LibInstance.lib_observed_okb
+          (conj C01LibInstance.lib_proved_sub (conj C01LibInstance.lib_bundle_okbw (conj C01LibInstance.lib_observed_okb
             (conj C01LibInstance.lib_observed20_okb eq_refl)))))).
 Qed.
 Print Assumptions lib_classes_covered.
@@ -254,3 +254,29 @@ Proof.
           (conj C01LibInstance.lib_parse_sub C01LibInstance.lib_parse_ok)))).
 Qed.
 Print Assumptions lib_parse_classes_covered.
+
+(* ------------------------------------------------------------------ positive instances (Proofs/C01Examples.v) *)
+(* The hypotheses of the theorems above are jointly satisfiable with ordinary objects on the generated tables, under
+   variant_repaired: a 2.1 identity with object_marking_refs parses strictly, is plain, its class is a covered parse entry
+   point, and roundtrip_equal_parse_partial applies to it; a 2.1 bundle with that identity as member (bundle_ok,
+   bundle_members_ok) and a 2.0 observed-data container with a file and a directory that refer to each other (observed20_ok)
+   are re-constructed from their own encoding as the same object. *)
+Example identity_parse_facts :
+  result_class (run variant_repaired env0 lib any_pattern any_selectors 6 (RParse false false None identity21)) = Some (u "2.1/Identity") /\
+  plain_dict identity21 = true /\ mem_ustr (u "2.1/Identity") lib_parse_idsw = true /\ mem_ustr (u "2.1/Identity") lib_parse_idsi = true.
+Proof. exact C01Examples.identity_parse_facts. Qed.
+
+Example identity_parse_roundtrip :
+  exists o, run variant_repaired env0 lib any_pattern any_selectors 6 (RParse false false None identity21) = Ok o /\
+            run variant_repaired env0 lib any_pattern any_selectors 6 (RParse false false None (omem o)) = Ok o.
+Proof. exact C01Examples.identity_parse_roundtrip. Qed.
+
+Example bundle_construct_roundtrip :
+  exists o, run variant_repaired env0 lib any_pattern any_selectors 7 (RConstruct (u "2.1/Bundle") false false bundle21 None) = Ok o /\
+            run variant_repaired env0 lib any_pattern any_selectors 7 (RConstruct (u "2.1/Bundle") false false (omem o) None) = Ok o.
+Proof. exact C01Examples.bundle_construct_roundtrip. Qed.
+
+Example observed20_construct_roundtrip :
+  exists o, run variant_repaired env0 lib any_pattern any_selectors 7 (RConstruct (u "2.0/ObservedData") false false observed20 None) = Ok o /\
+            run variant_repaired env0 lib any_pattern any_selectors 7 (RConstruct (u "2.0/ObservedData") false false (omem o) None) = Ok o.
+Proof. exact C01Examples.observed20_construct_roundtrip. Qed.
